@@ -71,6 +71,41 @@ void run_sqrt(sink& out, std::uint64_t salt)
     }
 }
 
+// types whose width (digits plus sign) is odd or exceeds 128 bits: multi-limb wide_integer and wrappers over narrow elastic
+// types; values are assembled from 128-bit pieces with the type's own shifts and read back from the object
+template<class T>
+void run_sqrt_big(sink& out, std::uint64_t salt)
+{
+    using Res = decltype(cnl::sqrt(std::declval<T>()));
+    int id = add_inst(out, ev("Inst").str("kind", "Sqrt").str("op", "sqrt").raw("lt", desc<T>()).raw("rt", desc<T>()).raw("res_t", desc<Res>()));
+    constexpr int D = cnl::digits_v<T>;
+    std::vector<T> vs;
+    rng r(salt);
+    for (unsigned long long q : {0ULL, 1ULL, 2ULL, 3ULL, 4ULL, 7ULL, 8ULL, 15ULL, 16ULL, 31ULL, 32ULL, 44ULL, 1000ULL, 65535ULL, 65536ULL, 0xFFFFFFFFULL}) {
+        for (int d = -1; d <= 1; ++d) {
+            u128 v = static_cast<u128>(q) * q + static_cast<u128>(d);
+            if ((d < 0 && q == 0) || (D < 127 && (v >> D))) {
+                continue;
+            }
+            vs.push_back(make<T>(false, v));
+        }
+    }
+    if constexpr (D > 130) {
+        T one = make<T>(false, 1);
+        for (int k = 100; k + 1 < D; k += 13) {
+            vs.push_back(T(one << k));
+            vs.push_back(T((one << k) - one));
+            vs.push_back(T((make<T>(false, r.g() | 1) << (k - 60)) + make<T>(false, r.g())));
+        }
+        vs.push_back(std::numeric_limits<T>::max());
+    }
+    for (auto const& x : vs) {
+        Res res{};
+        auto o = guarded([&] { res = cnl::sqrt(x); }, 2000);
+        out.put(ev("Sqrt").num("i", id).raw("x", raw(x)).raw("res", o == "ok" ? raw(res) : "[0]").str("out", o).s);
+    }
+}
+
 template<class Rep, int E>
 using SI = cnl::scaled_integer<Rep, cnl::power<E>>;
 template<class Rep, int E, int R>
@@ -116,6 +151,11 @@ int main(int argc, char** argv)
     run_sqrt<SI<std::int16_t, 4>>(out, 25);
     run_sqrt<SI<cnl::elastic_integer<31>, -20>>(out, 26);
     run_sqrt<SI<std::uint8_t, -2>>(out, 27);
+    run_sqrt_big<cnl::wide_integer<200>>(out, 40);
+    run_sqrt_big<cnl::wide_integer<199, unsigned>>(out, 41);
+    run_sqrt_big<cnl::wide_integer<256, std::int32_t>>(out, 42);
+    run_sqrt_big<cnl::overflow_integer<cnl::elastic_integer<20>, cnl::saturated_overflow_tag>>(out, 43);
+    run_sqrt_big<cnl::rounding_integer<cnl::elastic_integer<30>, cnl::native_rounding_tag>>(out, 44);
     // other radices: the result keeps the radix and halves the exponent
     run_sqrt<SIR<std::int32_t, -2, 10>>(out, 28);
     run_sqrt<SIR<std::int64_t, -4, 10>>(out, 29);
